@@ -41,6 +41,7 @@ public:
   virtual void log_msg(const char* s) { if (rec) logs.push_back(s); IPhreeqc::log_msg(s); }
 };
 
+static int g_run = 0;
 struct Run {
   CountIPhreeqc* ip = 0;
   std::vector<std::string> blocks;
@@ -80,7 +81,7 @@ public:
       << " " << hexd(e->MIN_RELATED_SURFACE) << " " << hexd(e->MIN_TOTAL) << " " << hexd(e->MIN_TOTAL_SS)
       << " " << hexd(e->tk_x) << " " << hexd(e->patm_x) << " " << hexd(e->pp_scale) << " " << hexd(e->mass_water_aq_x)
       << " " << (e->pitzer_model ? 1 : 0) << " " << (e->sit_model ? 1 : 0) << " " << e->count_unknowns
-      << " " << (e->use.Get_kinetics_in() ? 1 : 0) << " " << e->reaction_step << " " << e->simulation << "\n";
+      << " " << (e->use.Get_kinetics_in() ? 1 : 0) << " " << e->reaction_step << " " << e->simulation << " " << g_run << "\n";
     if (e->state < REACTION) return o.str();
     for (int i = 0; i < e->count_unknowns; i++) {
       class unknown* u = e->x[i];
@@ -97,6 +98,7 @@ public:
           << " " << (p->in != FALSE ? 1 : 0) << " " << hexd(c->Get_moles()) << " " << hexd(c->Get_delta())
           << " " << hexd(p->p_c) << " " << hexd(p->t_c) << " " << hexd(c->Get_si());
         if (p->in != FALSE) o << toks(p->rxn_x); else o << " 0";
+        o << " C " << (c->Get_dissolve_only() ? 1 : 0) << " " << (c->Get_precipitate_only() ? 1 : 0) << " " << (c->Get_force_equality() ? 1 : 0);
         o << "\n";
       } else if (u->type == SS_MOLES && hss) {
         cxxSS* s = (cxxSS*)u->ss_ptr;
@@ -358,32 +360,52 @@ int main() {
     ip->SetDumpStringOn(true);
     if (getenv("C03_DEBUG")) ip->SetOutputStringOn(true);
     std::string input = hx::unhex(w[3]);
-    int nerr = ip->RunString(input.c_str());
     if (is_probe) {
+      g_run = 0;
+      int nerr = ip->RunString(input.c_str());
+      (void)nerr;
       std::cout << "PROBE " << w[1] << " probed=" << (run.probed ? 1 : 0) << "\n" << run.probe_out << "END " << w[1] << "\n";
       std::cout.flush();
       delete ip; ip = 0; curdb = "";
       continue;
     }
-    std::cout << "CASE " << w[1] << " errors=" << nerr << " blocks=" << run.blocks.size() << " warnings=" << 0 << "\n";
-    ip->SetCurrentSelectedOutputUserNumber(1);
-    int nr = ip->GetSelectedOutputRowCount(), nc = ip->GetSelectedOutputColumnCount();
-    std::vector<std::string> heads;
-    for (int c = 0; c < nc; c++) { VAR v; VarInit(&v); ip->GetSelectedOutputValue(0, c, &v); heads.push_back(v.type == TT_STRING ? v.sVal : ""); VarClear(&v); }
-    for (size_t k = 0; k < run.blocks.size(); k++) {
-      std::cout << "B " << w[1] << " " << k << "\n" << run.blocks[k];
-      int row = (int)k + 1;
-      if (row < nr) {
-        for (int c = 0; c < nc; c++) {
-          VAR v; VarInit(&v); ip->GetSelectedOutputValue(row, c, &v);
-          std::cout << "R " << hex(heads[c]) << " " << showVar(v) << "\n";
-          VarClear(&v);
-        }
-      } else std::cout << "NOROW\n";
-      std::cout << "E\n";
+    // a history: the input is cut at lines "#RUNSPLIT" and every part is a separate RunString call on the same instance
+    std::vector<std::string> parts;
+    {
+      std::istringstream is(input); std::string ln, cur;
+      while (std::getline(is, ln)) { if (ln == "#RUNSPLIT") { parts.push_back(cur); cur.clear(); } else { cur += ln; cur += "\n"; } }
+      parts.push_back(cur);
     }
+    int nerr = 0, nr = 0;
+    size_t kglob = 0;
+    std::ostringstream body;
+    std::string warnall;
+    for (size_t part = 0; part < parts.size() && nerr == 0; part++) {
+      g_run = (int)part;
+      run.blocks.clear();
+      nerr = ip->RunString(parts[part].c_str());
+      { const char* wsz = ip->GetWarningString(); if (wsz) warnall += wsz; }
+      ip->SetCurrentSelectedOutputUserNumber(1);
+      nr = ip->GetSelectedOutputRowCount();
+      int nc = ip->GetSelectedOutputColumnCount();
+      std::vector<std::string> heads;
+      for (int c = 0; c < nc; c++) { VAR v; VarInit(&v); ip->GetSelectedOutputValue(0, c, &v); heads.push_back(v.type == TT_STRING ? v.sVal : ""); VarClear(&v); }
+      for (size_t k = 0; k < run.blocks.size(); k++, kglob++) {
+        body << "B " << w[1] << " " << kglob << "\n" << run.blocks[k];
+        int row = (int)k + 1;
+        if (row < nr) {
+          for (int c = 0; c < nc; c++) {
+            VAR v; VarInit(&v); ip->GetSelectedOutputValue(row, c, &v);
+            body << "R " << hex(heads[c]) << " " << showVar(v) << "\n";
+            VarClear(&v);
+          }
+        } else body << "NOROW\n";
+        body << "E\n";
+      }
+    }
+    std::cout << "CASE " << w[1] << " errors=" << nerr << " blocks=" << kglob << " runs=" << parts.size() << "\n" << body.str();
     std::cout << "DUMP " << hex(ip->GetDumpString() ? ip->GetDumpString() : "") << "\n";
-    { std::string ws = ip->GetWarningString() ? ip->GetWarningString() : ""; std::cout << "WARN " << hex(ws.substr(0, 4000)) << "\n"; }
+    std::cout << "WARN " << hex(warnall.substr(0, 6000)) << "\n";
     if (nerr) std::cout << "ERR " << hex(ip->GetErrorString()) << "\n";
     if (getenv("C03_DEBUG")) { std::string o = ip->GetOutputString(); std::cerr << o << "\n"; }
     std::cout << "END " << w[1] << " rows=" << (nr > 0 ? nr - 1 : 0) << "\n";
